@@ -832,7 +832,7 @@ func isMinFunction(f *ssa.Function) bool {
 		}
 		n++
 		v := ri.Vals[0]
-		blk := ri.Ret.Block()
+		blk := ri.At
 		// find the dominating comparison edge
 		good := false
 		for _, bb := range f.Blocks {
